@@ -15,8 +15,10 @@
    The k-th call fails (Fault): before the commit point apply switches to RollbackStep* (journal reversed), in the
    deletion phase the error propagates.  Then the caller's finalize() runs (Finalize).
 
-   InventoryFirst = FALSE is the order of the code (deletions, then inventory): TLC shows that it violates
-   DeletionFailureNewMeta; TRUE is the repaired order, for which every invariant holds. *)
+   InventoryFirst = FALSE is the order deletions, then metadata update (the pinned tree, both flavours): TLC shows that
+   it violates DeletionFailureNewMeta; TRUE is the order metadata update, then deletions (the repair), for which every
+   invariant holds.  The harness probes which order each flavour of the tree under test implements and expects the
+   counter-example to reproduce exactly on the flavours with the FALSE order. *)
 EXTENDS TransformMaps, SequencesExt
 CONSTANTS Cases, MaxK, InventoryFirst
 VARIABLES m, k, fs, inv, pc, rem, ins, del, cln, nops, journal, failedIn
